@@ -370,6 +370,15 @@ def run(prog, rep, tier='quick', config='default'):
                     if any(f == 'separate_commission_currency' for (_, f) in org.fields):
                         src_field = True
                     bad += [c for c in org.calls if c.short not in TRANSPORT]
+                    # the value may come in as a parameter of a local closure (`|tx, sep: &Option<..>| ..` called with `&s.separate_..`)
+                    if g.kind == 'Closure' and (org.params - {1}) and not any(f == 'separate_commission_currency' for (_, f) in org.fields):
+                        for (par, cc, aops) in mir.direct_closure_calls(prog, g):
+                            for p_ in org.params - {1}:
+                                if p_ - 2 < len(aops) and is_place(aops[p_ - 2]):
+                                    o2 = mir.provenance(par, aops[p_ - 2], follow_all_call_args=True)
+                                    if any(f == 'separate_commission_currency' for (_, f) in o2.fields):
+                                        src_field = True
+                                    bad += [c for c in o2.calls if c.short not in TRANSPORT]
                 if node.get('t') == 'call':
                     cs = g.call_at[bb]
                     if cs.short not in TRANSPORT:
